@@ -51,8 +51,8 @@ def G5(head_left=True):
 
 
 def G6():
-    """one word, four tags, unary rules, two roots (n = 1 obligations)"""
-    return dict(name='G6', ncats=7, T=4, binary=[], unary=[(0, 4, 'a'), (1, 4, 'b'), (4, 5, 'c'), (2, 6, 'd')], roots=[3, 5, 6, 1], uniform=True)
+    """one word, four tags, unary rules (two results with different labels for tag 0), several roots (n = 1 obligations)"""
+    return dict(name='G6', ncats=7, T=4, binary=[], unary=[(0, 4, 'a'), (0, 6, 'a2'), (1, 4, 'b'), (4, 5, 'c'), (2, 6, 'd')], roots=[3, 5, 6, 1], uniform=True)
 
 
 def real_grammar(lang):
